@@ -901,6 +901,7 @@ impl Graph {
         //
         // This enables these inputs to be used for in-place operations or
         // returned directly as outputs.
+        let input_ids: SmallVec<[NodeId; 4]> = inputs.iter().map(|(id, _)| *id).collect();
         let mut idx = 0;
         while idx < inputs.len() {
             if matches!(inputs[idx], (_, ValueOrView::Value(_))) {
@@ -1217,12 +1218,18 @@ impl Graph {
             }
 
             // Save outputs for future steps.
+            //
+            // An operator may run to produce one of its outputs while another
+            // of its outputs was supplied as an input. The supplied value
+            // takes precedence, whether it was passed as an owned value or as
+            // a view.
             temp_values.extend(
                 op_node
                     .output_ids()
                     .iter()
                     .zip(outputs)
-                    .filter_map(|(output_id, output)| output_id.map(|id| (id, output))),
+                    .filter_map(|(output_id, output)| output_id.map(|id| (id, output)))
+                    .filter(|(id, _)| !input_ids.contains(id)),
             );
 
             // Remove temporary values that are no longer needed
